@@ -200,7 +200,7 @@ func (h *H) runGen(r *Rig, p *Peer, ctr0 uint32, tag string, next func(i int, o 
 		if i := strings.Index(detail, " ## "); i >= 0 {
 			kind, rest = detail[:i], detail[i:]
 		}
-		c.Fail(fmt.Sprintf("E37 table violated: class=%s: %s", class, kind), caseSoFar()+rest)
+		c.Fail(fmt.Sprintf("E37 table violated: class=%s: %s", class, kind), caseSoFar()+rest+r.Cfg.Tag())
 	}
 	emit := func(ended bool) {
 		line := caseSoFar()
@@ -246,7 +246,7 @@ func (h *H) runGen(r *Rig, p *Peer, ctr0 uint32, tag string, next func(i int, o 
 
 	reportReplay := func(nf, no int) {
 		frames, obs = frames[:nf], obs[:no]
-		c.Fail(replayWhat, caseSoFar())
+		c.Fail(replayWhat, caseSoFar()+r.Cfg.Tag())
 		c.Count("deselect-undone")
 	}
 
@@ -432,7 +432,9 @@ func allCfgs(sid uint16) []Cfg {
 	for _, a := range []bool{false, true} {
 		for _, v := range []bool{false, true} {
 			for _, e := range []bool{false, true} {
-				out = append(out, Cfg{Active: a, Sid: sid, Validate: v, Equip: e})
+				for _, t := range []bool{false, true} {
+					out = append(out, Cfg{Active: a, Sid: sid, Validate: v, Equip: e, Trace: t})
+				}
 			}
 		}
 	}
